@@ -43,6 +43,15 @@ def go_hash(pres):
     return out
 
 
+def has_nan(v):
+    """a float64 NaN somewhere in the value (NaN payloads do not survive printing: C05 finding nan-payload)"""
+    for m in re.finditer(r'"ty": "float64", "v": "(\d+)"', json.dumps(v)):
+        b = int(m.group(1))
+        if (b >> 52) & 0x7FF == 0x7FF and (b & ((1 << 52) - 1)) != 0:
+            return True
+    return False
+
+
 def instants_equal(a, b):
     if a is None or b is None:
         return a is None and b is None
@@ -174,6 +183,34 @@ def run(ctx):
         ctx.violation({"kind": "property-violated-by-implementation", "class": "constructor-getter-mismatch", "explain": r["what"],
                        "failing_input": {"id": vc.show(r["id"]), "anchor": r["anchor"], "printed": vc.show(r["printed"])}})
     rows = [r for r in rows if r["kind"] != "ctor"]
+    # the same instant written in a zone and in UTC, both PARSED, and built by the constructor: one UUID
+    extra = [r for r in rows if r["kind"] in ("sameinstant", "uuidstable", "uuidhelper")]
+    rows = [r for r in rows if r["kind"] not in ("sameinstant", "uuidstable", "uuidhelper")]
+    for r in extra:
+        if r["kind"] == "sameinstant":
+            if not r["ok"] or not (r["ua"] == r["ub"] == r["uc"]):
+                ctx.violation({"kind": "property-violated-by-implementation", "class": "same-instant-different-uuid",
+                               "explain": "a predicate parsed from an anchor written in a zone, the one parsed from its UTC spelling and the one built by the constructor for that instant must have one UUID",
+                               "failing_input": {"a": vc.show(r["texta"]), "b": vc.show(r["textb"]), "ua": r.get("ua"), "ub": r.get("ub"), "constructor": r.get("uc")}})
+        elif r["kind"] == "uuidstable":
+            ctx.cov["uuid_stability_recheck"] = {"values": r["values"], "changed": r["changed"]}
+            if r["changed"] > 0:
+                ctx.violation({"kind": "property-violated-by-implementation", "class": "uuid-not-stable-across-calls",
+                               "explain": "after the exported UUID helpers of storage/memory and a memory graph were used, UUID() of earlier values changed",
+                               "failing_input": {"changed": r["changed"], "of": r["values"], "examples": r["examples"]}})
+        else:
+            ctx.violation({"kind": "property-violated-by-implementation", "class": "uuid-helper", "failing_input": r})
+    # the UUID survives the text round trip (String, Parse, UUID)
+    nrep, badrep = 0, []
+    for r in rows:
+        if r["kind"] == "uuid" and r.get("uuid_reparsed") not in (None, "unparsable"):
+            nrep += 1
+            if r["uuid_reparsed"] != r["uuid"] and not has_nan(r["v"]):
+                badrep.append(r)
+    for r in badrep[:3]:
+        ctx.violation({"kind": "property-violated-by-implementation", "class": "uuid-changes-through-text",
+                       "explain": "UUID of Parse(String(v)) differs from UUID of v", "failing_input": r})
+    ctx.cov["uuid_after_text_round_trip"] = {"compared": nrep, "different": len(badrep)}
     vals, owner = [], []
     for i, r in enumerate(rows):
         if r["kind"] == "uuid":
@@ -236,6 +273,7 @@ def run(ctx):
         rows2 = vc.hrows(["-mode", "uuid", "-seed", str(ctx.seed), "-n", "4000" if thorough else "600"])
     finally:
         os.environ.pop("TZ", None)
+    rows2 = [r for r in rows2 if r["kind"] in ("uuid", "pair")]
     cross, crossbad = 0, 0
     for a, b in zip(rows, rows2):
         if a["kind"] != b["kind"] or a.get("v") != b.get("v") or a.get("a") != b.get("a"):
